@@ -64,6 +64,46 @@ func runC05(c *Ctx) {
 	})
 	checkToHops(c)
 	runR043(c)
+	checkReceiveLoopDoesNotWait(c)
+}
+
+// checkReceiveLoopDoesNotWait is R05.3: RTT is time.Since(send) taken when the reply is READ, so anything that
+// delays the reader between two reads (a sleep, a channel wait) inflates every queued reply's RTT by that much.
+func checkReceiveLoopDoesNotWait(c *Ctx) {
+	R := c.R
+	n := 0
+	for _, e := range Engines(c.P) {
+		for _, r := range e.RecvSites {
+			g := r.Parent()
+			loop := innermostLoop(g, r.Block())
+			if loop == nil {
+				R.Fail("R05.3", e.Name+"#receive-loop", r.Pos(), core.FuncName(g), "ReceiveProbe is not called from a loop")
+				continue
+			}
+			n++
+			bad := ""
+			for b := range loop {
+				for _, in := range b.Instrs {
+					switch x := in.(type) {
+					case *ssa.Call:
+						if cal := x.Common().StaticCallee(); cal != nil && (cal.String() == "time.Sleep" || cal.String() == "(*time.Timer).Reset") {
+							bad = cal.String() + " at " + c.P.PosStr(x.Pos())
+						}
+					case *ssa.UnOp:
+						if x.Op.String() == "<-" {
+							bad = "channel receive at " + c.P.PosStr(x.Pos())
+						}
+					case *ssa.Select:
+						if x.Blocking {
+							bad = "blocking select at " + c.P.PosStr(x.Pos())
+						}
+					}
+				}
+			}
+			R.Check(bad == "", "R05.3", e.Name+"#receive-loop-no-wait", r.Pos(), core.FuncName(g), "the receive loop goes straight back to ReceiveProbe (no sleep or channel wait between reads)", "the receive loop waits between reads ("+bad+"): replies already queued are read late and their RTT, measured at read time, is inflated by more than one poll interval")
+		}
+	}
+	R.Floor("R05.3:receive-loops", n, 2)
 }
 
 // accessorSince: every success return of the accessor is time.Since(X) with X
